@@ -120,10 +120,11 @@ func runC24(c *Ctx) {
 
 	c.Rule("C24.dedupe", "E-FLOW (provenance)", "an update is dropped as unchanged only after comparing it with the entry looked up in the live tree (Cache.kvs) the batch is being applied to, never with a snapshot", 1)
 
-	m.publishRules()
-	m.statusRule()
-	m.streamRules()
-	m.dedupeRules()
+	// the families are independent: a lost anchor in one must not silence the others
+	c01Isolated(c, m.publishRules)
+	c01Isolated(c, m.statusRule)
+	c01Isolated(c, m.streamRules)
+	c01Isolated(c, m.dedupeRules)
 }
 
 func (m *c24Model) isCrumbPtr(t types.Type) bool {
@@ -185,6 +186,7 @@ func (m *c24Model) publishRules() {
 		}
 	}
 	nPub, nKVs, nLink := 0, 0, 0
+	mir := m.newMirror(fns)
 	for _, f := range fns {
 		// publications of locally built crumbs
 		pubs := map[*ssa.Alloc][]*ssa.Call{}
@@ -264,7 +266,13 @@ func (m *c24Model) publishRules() {
 			}
 			var mut ssa.Instruction
 			allInstrs(f, false, func(_ *ssa.Function, in ssa.Instruction) {
-				if k := m.treeCall(in); k != "" && k != "read" && instrReaches(clone, in) && mut == nil {
+				isMut := mir.directMut(in)
+				if ci, ok := in.(*ssa.Call); ok && !isMut {
+					if g := mir.callee(ci); g != nil && mir.mayMut[g] {
+						isMut = true // an in-package helper that (transitively) mutates the tree
+					}
+				}
+				if isMut && instrReaches(clone, in) && mut == nil {
 					mut = in
 				}
 			})
@@ -275,98 +283,9 @@ func (m *c24Model) publishRules() {
 				c.Violate(key, p.Pos(mut.Pos()), "the tree is mutated at %s after the crumb's snapshot was cloned at %s: snapshot and deltas of the crumb disagree", p.Pos(mut.Pos()), p.Pos(clone.Pos()))
 			}
 		}
-		// deltas mirror tree mutations, per iteration
-		var ser *ssa.Call
-		nSer := 0
-		var muts, deltaStores []ssa.Instruction
-		allInstrs(f, false, func(_ *ssa.Function, in ssa.Instruction) {
-			if ci, ok := in.(*ssa.Call); ok {
-				if cal := calleeOf(ci.Common()); cal != nil && isFunc(cal, c24Proto, "SerializeUpdate") {
-					ser = ci
-					nSer++
-				}
-			}
-			if k := m.treeCall(in); k != "" && k != "read" {
-				muts = append(muts, in)
-			}
-			if st, ok := in.(*ssa.Store); ok && fieldVar(st.Addr) == m.fDeltas {
-				if _, isApp := isBuiltinCall(c24AsInstr(st.Val), "append"); isApp {
-					deltaStores = append(deltaStores, in)
-				}
-			}
-		})
-		if len(muts) == 0 {
-			continue
-		}
-		base := "C24.publish/delta-mirrors-tree/" + fnName(f)
-		if nSer != 1 || len(deltaStores) == 0 {
-			c.Undecided(base, p.Pos(f.Pos()), "%s mutates the tree but has %d SerializeUpdate call(s) and %d Deltas append(s)", fnName(f), nSer, len(deltaStores))
-			continue
-		}
-		isDelta := func(in ssa.Instruction) bool {
-			for _, d := range deltaStores {
-				if d == in {
-					return true
-				}
-			}
-			return false
-		}
-		isMut := func(in ssa.Instruction) bool {
-			for _, d := range muts {
-				if d == in {
-					return true
-				}
-			}
-			return false
-		}
-		hit := c25Reach(f, ser, isDelta, func(in ssa.Instruction) bool { return isMut(in) || in == ssa.Instruction(ser) }, nil)
-		if hit == nil {
-			c.Ok(base+"/delta-applied", p.Pos(ser.Pos()), "every delta appended in an iteration follows a tree mutation of that iteration")
-		} else {
-			c.Violate(base+"/delta-applied", p.Pos(hit.Pos()), "a delta can be appended at %s without the tree having been updated in that iteration: later joiners get a snapshot that disagrees with what followers were sent", p.Pos(hit.Pos()))
-		}
-		var badMut ssa.Instruction
-		for _, mu := range muts {
-			h := c25Reach(f, mu, func(in ssa.Instruction) bool {
-				if _, isRet := in.(*ssa.Return); isRet {
-					return true
-				}
-				if in == ssa.Instruction(ser) {
-					return true
-				}
-				if ci, ok := in.(*ssa.Call); ok {
-					if cal := calleeOf(ci.Common()); cal != nil && cal.Name() == "Clone" && m.treeCall(in) == "read" {
-						return true // left the loop
-					}
-				}
-				return false
-			}, isDelta, nil)
-			if h != nil && badMut == nil {
-				badMut = mu
-			}
-		}
-		if badMut == nil {
-			c.Ok(base+"/mutation-recorded", p.Pos(ser.Pos()), "all %d tree mutation(s) are followed by a Deltas append before the next iteration / the snapshot", len(muts))
-		} else {
-			c.Violate(base+"/mutation-recorded", p.Pos(badMut.Pos()), "the tree mutation at %s can be left unrecorded in Deltas: connected clients never hear of it while new clients see it in the snapshot", p.Pos(badMut.Pos()))
-		}
-		for _, mu := range muts {
-			name := m.treeCall(mu)
-			var want bool
-			switch name {
-			case "Delete":
-				want = true
-			case "ReplaceOrInsert":
-				want = false
-			default:
-				continue
-			}
-			g := guardedCut(mu, c25NilCond(want, func(v ssa.Value) bool { return fieldVar(v) == m.kvValue }))
-			c.Check(g, "C24.publish/tree-op-guard/"+fnName(f)+"/"+name, p.Pos(mu.Pos()),
-				fmt.Sprintf("kvs.%s only when the update's Value is nil == %v", name, want),
-				fmt.Sprintf("kvs.%s is reachable when the update's Value nil-ness is not %v: deletions would be stored / values deleted", name, want))
-		}
 	}
+	// deltas mirror tree mutations, per iteration (interprocedural: engine_C24mirror.go)
+	mir.run()
 	if nPub == 0 || nKVs == 0 || nLink == 0 {
 		c.Lost("snapcache publication sites: %d crumb publications, %d KVs stores, %d currentBreadcrumb stores", nPub, nKVs, nLink)
 	}
